@@ -35,7 +35,7 @@ public:
       case MBEFORE: case MBEHIND: n += verif::Fmt("(k%d,k%d)", a, b); break;
       case PUT_DEFAULT: case PUT_SELFVAL: case GET_MTF: case GET_MTB: case REMOVE: case REMOVE_RET: case REMOVE_DEF: case MTF: case MTB: case REPOSITION: case MOVETOTABLE: case MOVEFROMTABLE: case COPYTOTABLE: case SWAPWITHTABLE:
       case WOULDREMOVE: case U_REMOVE: case AL_PUTBEFORE: case AL_PUTBEHIND: n += verif::Fmt("[k%d]", a); break;
-      case IT_NEW: n = std::string(a ? "B" : "A") + (v < 0 ? "=GetIterator(" : verif::Fmt("=GetIteratorAt(k%d,", v)) + (b ? "BACKWARDS)" : "0)"); break;
+      case IT_NEW: n = std::string(a ? "B" : "A") + (v == -2 ? "=u.GetIterator(" : v < 0 ? "=GetIterator(" : verif::Fmt("=GetIteratorAt(k%d,", v)) + (b ? "BACKWARDS)" : "0)"); break;
       case IT_ADV: n = a ? "B++" : "A++"; break;
       case IT_RET: n = a ? "B--" : "A--"; break;
       case IT_DEL: n = a ? "~B" : "~A"; break;
@@ -139,6 +139,7 @@ public:
       A(F | W | O, U_CLEAR);
       A(C | W | H | O, IT_NEW, 0, 0, -1);
       A(C | W | O, IT_NEW, 1, 1, -1);
+      A(C | W | O, IT_NEW, 0, 0, -2);   // iterator A on table u (it changes hands when the tables are swapped / moved)
       A(F | W | O, IT_NEW, 0, 0, 1);
       A(F | W | O, IT_NEW, 1, 1, 1);
       A(C | W | H | O | D, IT_ADV, 0);
